@@ -7,7 +7,9 @@ import importlib
 UNIT_MODULES = {
     "GenBatch": "gen_batch",
     "GenFmt": "gen_fmt",
+    "GenInfini": "gen_infini",
     "GenMissing": "gen_missing",
+    "GenFarmer": "gen_farmer",
     "GenNames": "gen_names",
     "GenReap": "gen_reap",
     "GenRunner": "gen_runner",
